@@ -6,7 +6,13 @@ Protocol (one case = a configuration line followed by votes / strategy changes):
   vote <K:weight:rel:conf>*       K in P E B D U X (PERMIT EXECUTE BLOCK DEFER other-action raises),
                                   conf in <rat> | none (payload carries no confidence) | bad (non-numeric)
   realvote <safe|danger|inject> <atp> <n>   fresh colony of n REAL BioAgent voters (core/agent.py), shared ATP budget
-Observation of a vote: reached decision permit block abstain total thresholdTag [type:weight:conf,...]
+  cb <reached|failed> <none|ok|raise>       `on_quorum_reached` / `on_quorum_failed` (constructor argument before the object
+                                            exists, attribute assignment afterwards); `raise`: the callback raises
+  attr tracking <0|1>                       `enable_reliability_tracking` (constructor argument / attribute)
+  obj <k>                                   switch to quorum object k: several objects alive, each with its own state
+Observation of a vote: reached decision permit block abstain total thresholdTag [type:weight:conf,...] strategy cb=<which>
+  (a raising callback: `raise:CallbackError <which> <the result the callback was handed>`); `run_vote` is entered in
+  turn as run_vote(p), run_vote(p, {...}), run_vote(prompt=p, context=None)
 
 Floats: weights, reliabilities and confidences are dyadic, so every sum the code forms is exact; a ratio is one
 correctly rounded division and is compared with a threshold whose distance from any attainable ratio is either 0
@@ -27,7 +33,8 @@ from ..extract import quorum_consts, quorum_tables
 
 STRATS = ["majority", "supermajority", "unanimous", "weighted", "confidence", "bayesian", "threshold"]
 ACTION = {"P": "PERMIT", "E": "EXECUTE", "B": "BLOCK", "D": "DEFER"}
-OTHER_ACTIONS = ["UNKNOWN", "FAILURE", "permit", "", "ABSTAIN", "Block", "SUCCESS"]
+OTHER_ACTIONS = ["UNKNOWN", "FAILURE", "permit", "", "ABSTAIN", "Block", "SUCCESS", "EXEC", "PERMITEXECUTE", "IT", " PERMIT",
+                 "BLOCKED", "DEFERRED", "E", "PERMIT\n", "DEFE", "execute", "PERMIT,EXECUTE", "LOCK", "T"]
 W = ["0", "1/4", "1/2", "1", "2"]
 REL = ["1", "1", "1", "1/2", "0"]
 CF = ["0", "1/4", "1/2", "1", "none", "bad"]
@@ -203,6 +210,10 @@ class Spec:
         return True
 
 
+class CallbackError(Exception):
+    """raised by a harness callback that was asked to fail"""
+
+
 class Stub:
     """stub voter agent (the BioAgent interface used by run_vote: `.name`, `.express(signal)`).  Behaviour is a queue
     of (kind, conf, position) entries, one per colony slot that holds this object (the same agent object may be
@@ -221,12 +232,17 @@ class Stub:
             raise RuntimeError("voter failed")
         action = ACTION.get(k) or OTHER_ACTIONS[i % len(OTHER_ACTIONS)]
         if c == "none":
-            payload = [None, "Action is safe.", {}, {"note": 1}, 0.25][i % 5]
+            payload = [None, "Action is safe.", {}, {"note": 1}, 0.25, ["confidence", 1], {"Confidence": 0.9}][i % 7]
         elif c == "bad":
-            payload = {"confidence": ["high", None, "", [1]][i % 4]}
+            payload = {"confidence": ["high", None, "", [1], "1,0", {}][i % 6]}
         else:
             f = float(Fraction(c))
-            payload = {"confidence": [f, str(f)][(i // 3) % 2]}
+            forms = [f, str(f), f, f" {f} "]
+            if f == int(f):
+                forms.append(int(f))                    # an int (and True for 1) is a number too
+                if f == 1.0:
+                    forms.append(True)
+            payload = {"confidence": forms[(i // 3) % len(forms)]}
         return ActionProtein(action, payload, 1.0)
 
 
@@ -237,6 +253,7 @@ class C06(Prop):
     quick_budget = 3000
     thorough_budget = 50000
     extractors = ["E5-quorum", "E5-quorum-tables"]
+    CB_KEYS = {"reached": "on_quorum_reached", "failed": "on_quorum_failed"}
     all_branches = (["gate"] + [f"{s}:{o}" for s in STRATS for o in ("permit", "block")] + ["threshold:raise"]
                     + ["real:gate"] + [f"real:{s}:{o}" for s in STRATS for o in ("permit", "block")] + ["skip"])
     _assumptions = [
@@ -283,9 +300,14 @@ class C06(Prop):
         """configuration in force at every line: (strategy, custom, minVoters) or None"""
         st = ("majority", None, 1, False)
         out = []
+        objs, cur = {}, 0
         for l in lines:
             t = l.split()
-            if t[0] == "cfg" and len(t) == 4:
+            if t[0] == "obj" and len(t) == 2 and t[1].isdigit():
+                objs[cur] = st
+                cur = int(t[1])
+                st = objs.get(cur, ("majority", None, 1, False))
+            elif t[0] == "cfg" and len(t) == 4:
                 cu = None if t[2] == "none" else Fraction(t[2])
                 if t[1] == "emergency":
                     st = ("threshold", Fraction(3, 10) if cu is None else cu, 1, "default" if cu is None else "custom")
@@ -305,6 +327,24 @@ class C06(Prop):
                 except (ValueError, ZeroDivisionError):
                     pass
             out.append(st)
+        return out
+
+    @staticmethod
+    def _callbacks(lines):
+        """callbacks installed on the current object at every line: {"reached": mode, "failed": mode}"""
+        cb = {"reached": "none", "failed": "none"}
+        out, objs, cur = [], {}, 0
+        for l in lines:
+            t = l.split()
+            if t[0] == "obj" and len(t) == 2 and t[1].isdigit():
+                objs[cur] = cb
+                cur = int(t[1])
+                cb = objs.get(cur, {"reached": "none", "failed": "none"})
+            elif t[0] == "cfg" and len(t) == 4 and (t[1] in STRATS or t[1] == "emergency"):
+                cb = {"reached": "none", "failed": "none"}
+            elif t[0] == "cb" and len(t) == 3 and t[1] in cb and t[2] in ("none", "ok", "raise"):
+                cb = dict(cb, **{t[1]: t[2]})
+            out.append(cb)
         return out
 
     def _risky(self, lines):
@@ -344,7 +384,7 @@ class C06(Prop):
         produced = 0
         while produced < n:
             if rng.random() < 0.25:
-                case = self._history_case(rng)
+                case = self._history_case(rng) if rng.random() < 0.8 else self._two_object_case(rng)
                 if self._keep(case):
                     produced += 1
                     yield case
@@ -355,6 +395,10 @@ class C06(Prop):
                 strat = "threshold"
             else:
                 lines = [f"cfg {strat} {self._rand_custom(rng, strat)} {rng.choice([1, 1, 1, 2, 2, 3, 4, 0, 5])}"]
+            if rng.random() < 0.2:                        # callbacks handed over to the constructor
+                lines.append(f"cb {rng.choice(['reached', 'failed'])} {rng.choice(['ok', 'ok', 'raise'])}")
+                if rng.random() < 0.5:
+                    lines.append(f"cb {rng.choice(['reached', 'failed'])} {rng.choice(['ok', 'raise'])}")
             shape = rng.random()
             bias = (["P", "P", "P", "E", "B", "B", "D", "U", "X"] if shape < 0.5 else
                     ["P", "E"] if shape < 0.62 else ["B", "B", "U", "D", "X"] if shape < 0.74 else
@@ -369,6 +413,9 @@ class C06(Prop):
                 if rng.random() < 0.2:
                     s2 = rng.choice(STRATS)
                     lines.append(f"setstrat {s2} {self._rand_custom(rng, s2)}")
+                    lines.append(self.vote_line(ballot))
+                if rng.random() < 0.1:                    # callbacks assigned / removed on the live object
+                    lines.append(f"cb {rng.choice(['reached', 'failed'])} {rng.choice(['ok', 'raise', 'none'])}")
                     lines.append(self.vote_line(ballot))
                 if rng.random() < 0.15:                   # the same through the public attributes, no setter
                     s2 = rng.choice(STRATS)
@@ -450,6 +497,10 @@ class C06(Prop):
             elif x < 0.63:
                 nm = rng.choice(names + ["nobody"]) if names else "nobody"
                 lines.append(f"relupd {hexs(nm)} {rng.choice([0, 1])}")
+            elif x < 0.66:
+                lines.append(f"cb {rng.choice(['reached', 'failed'])} {rng.choice(['ok', 'ok', 'raise', 'none'])}")
+            elif x < 0.675:
+                lines.append(f"attr tracking {rng.choice([0, 0, 1])}")
             else:
                 k = len(names) if rng.random() < 0.85 else rng.choice([0, 1, 2, 3, 4])
                 bias = rng.choice([["P", "B"], ["P", "P", "B", "U", "X"], ["P", "E", "B", "D", "U", "X"], ["P"], ["B", "P", "P"]])
@@ -466,6 +517,24 @@ class C06(Prop):
                 if votes in (1, 2, 4) and rng.random() < 0.5:
                     lines.append(f"relall {rng.choice(['permit', 'block', 'abstain'])}")
         return {"lines": lines, "note": "history"}
+
+    def _two_object_case(self, rng):
+        """two quorum objects alive at once, their histories interleaved: nothing of one may leak into the other"""
+        a, b = self._history_case(rng)["lines"], self._history_case(rng)["lines"]
+        lines, cur, ia, ib = [], 0, 0, 0
+        while ia < len(a) or ib < len(b):
+            pick = 0 if (not lines or ib >= len(b) or (ia < len(a) and rng.random() < 0.5)) else 1
+            if pick != cur:
+                lines.append(f"obj {pick}")
+                cur = pick
+            k = rng.choice([1, 1, 2, 3])
+            if pick == 0:
+                lines += a[ia:ia + k]
+                ia += k
+            else:
+                lines += b[ib:ib + k]
+                ib += k
+        return {"lines": lines, "note": "history, two objects"}
 
     def exhaustive(self, tier):
         """every ballot of <= k voters over a small voter alphabet x every strategy x representative thresholds"""
@@ -534,7 +603,20 @@ class C06(Prop):
                 for ks in itertools.product("PBUX", repeat=3):
                     lines.append(self.vote_line([(k, None, None, "none") for k in ks]))
                 dup_cases.append({"lines": lines, "note": "exhaustive duplicate names"})
-        return [{"name": f"all multisets of <= {kmax} voters over a {len(alpha)}-voter alphabet x {len(cfgs)} configurations",
+        # every combination of installed callbacks (none / well-behaved / raising, each side) x handed over to the
+        # constructor or assigned afterwards x a PERMIT, a BLOCK and a gated ABSTAIN vote
+        cb_cases = []
+        for mr in ("none", "ok", "raise"):
+            for mf in ("none", "ok", "raise"):
+                votes = ["vote P:1:1:none P:1:1:none B:1:1:none", "vote B:1:1:none U:1:1:none", "vote U:1:1:none X:1:1:none"]
+                cb_cases.append({"lines": ["cfg majority none 1", f"cb reached {mr}", f"cb failed {mf}"] + votes,
+                                 "note": "exhaustive callbacks (constructor)"})
+                cb_cases.append({"lines": ["cfg emergency none 1", "colony 2", f"cb reached {mr}", f"cb failed {mf}"] + votes
+                                 + ["cb reached none", "cb failed none"] + votes,
+                                 "note": "exhaustive callbacks (attributes)"})
+        return [{"name": "callbacks: none / well-behaved / raising on each side x constructor argument or attribute x "
+                         "PERMIT / BLOCK / gated vote", "cases": cb_cases},
+                {"name": f"all multisets of <= {kmax} voters over a {len(alpha)}-voter alphabet x {len(cfgs)} configurations",
                  "cases": kept},
                 {"name": "three-member colonies with every pattern of equal agent names x all ballots over P B U X x 4 strategies",
                  "cases": dup_cases},
@@ -542,18 +624,19 @@ class C06(Prop):
                  "cases": count_cases}]
 
     # --- implementation ---------------------------------------------------------------------------------------
-    def _make(self, strat, custom, mv, n, emergency=False, atp=1000):
+    def _make(self, strat, custom, mv, n, emergency=False, atp=1000, **ctor):
+        """`ctor`: further constructor arguments (callbacks, enable_reliability_tracking)"""
         m = self.m
         with contextlib.redirect_stdout(io.StringIO()):
             budget = self.ATP(budget=atp, silent=True)
             if emergency:
                 if custom is None:
-                    q = m.EmergencyQuorum(n_agents=n, budget=budget, silent=True)
+                    q = m.EmergencyQuorum(n_agents=n, budget=budget, silent=True, **ctor)
                 else:
-                    q = m.EmergencyQuorum(n_agents=n, budget=budget, emergency_threshold=custom, silent=True)
+                    q = m.EmergencyQuorum(n_agents=n, budget=budget, emergency_threshold=custom, silent=True, **ctor)
             else:
                 q = m.QuorumSensing(n_agents=n, budget=budget, strategy=m.VotingStrategy(strat), threshold=custom,
-                                    min_voters=mv, silent=True)
+                                    min_voters=mv, silent=True, **ctor)
         return q
 
     def _resize(self, q, k):
@@ -563,7 +646,7 @@ class C06(Prop):
         while len(q.colony) < k:
             q.add_agent(f"Added_{len(q.colony)}", weight=1.0)
 
-    def _install(self, q, ballot):
+    def _install(self, q, ballot, salt=0):
         """script the stubs for one vote; explicit weights / reliabilities are assigned to the profile (public
         dataclass fields), `None` keeps what the object has.  Returns the electorate as the object now holds it."""
         for prof in q.colony:
@@ -572,7 +655,7 @@ class C06(Prop):
             prof.agent.script = []
         resolved = []
         for i, (prof, (k, w, r, c)) in enumerate(zip(q.colony, ballot)):
-            prof.agent.script.append((k, c, i))
+            prof.agent.script.append((k, c, i + salt))
             if w is not None:
                 prof.weight = float(w)
             if r is not None:
@@ -585,14 +668,48 @@ class C06(Prop):
         return "[" + ",".join(f"{hexs(p.agent.name)}:{show_w(p.weight)}:{show_w(p.reliability_score)}:{p.votes_cast}:"
                               f"{p.correct_votes}" for p in q.colony) + "]"
 
-    def _observe(self, q, n, prompt="proposal", skip_nondyadic=False):
+    def _recorder(self, rec, which, mode):
+        """a callback that records what it was handed (and raises when asked to)"""
+        def callback(result):
+            rec.append((which, result))
+            if mode == "raise":
+                raise CallbackError(which)
+        return callback
+
+    @staticmethod
+    def _stats(q):
+        try:
+            st = q.get_statistics()
+            return {k: st.get(k) for k in ("n_agents", "total_votes", "quorums_reached", "quorums_failed")}
+        except Exception:  # noqa
+            return None
+
+    def _observe(self, q, n, prompt="proposal", skip_nondyadic=False, style=0, rec=None, side=None):
+        """one vote through the public entry point (three call styles in turn).  `rec`: what the installed callbacks
+        were handed; `side`: receives the names of the other public reports (history, statistics) that do not match
+        the returned result"""
         nondyadic = any(Fraction(p.reliability_score).denominator > 2 ** 20 for p in q.colony)
+        rec = [] if rec is None else rec
+        del rec[:]
+        st0 = self._stats(q)
+        raised = False
         try:
             with contextlib.redirect_stdout(io.StringIO()):
-                r = q.run_vote(prompt)
+                if style % 3 == 0:
+                    r = q.run_vote(prompt)
+                elif style % 3 == 1:
+                    r = q.run_vote(prompt, {"origin": "harness", "round": style})
+                else:
+                    r = q.run_vote(prompt=prompt, context=None)
+        except CallbackError:
+            if not rec:
+                return "raise:CallbackError", None
+            raised, r = True, rec[-1][1]
         except Exception as e:
             return f"raise:{type(e).__name__}", None
         V = self.m.VotingStrategy
+        if side is not None:
+            side.extend(self._side_reports(q, r, n, st0))
         if skip_nondyadic and nondyadic and r.strategy in (V.WEIGHTED, V.CONFIDENCE, V.BAYESIAN):
             return "skip:nondyadic", r                  # float sums of non-dyadic weights: not compared
         vt = lambda v: v.vote_type.value
@@ -609,36 +726,85 @@ class C06(Prop):
             tag = show_rat(Fraction(float(r.threshold_used)).limit_denominator(10 ** 6))
         obs = " ".join([show_bool(r.reached), r.decision.value, str(r.permit_votes), str(r.block_votes),
                         str(r.abstain_votes), str(r.total_votes), tag, "[" + votes + "]", r.strategy.value])
-        return obs, r
+        if raised:
+            return f"raise:CallbackError {rec[-1][0]} {obs}", r
+        fired = "+".join(w + ("" if res is r else "!other") for (w, res) in rec) or "none"
+        return f"{obs} cb={fired}", r
+
+    def _side_reports(self, q, r, n, st0):
+        """the other public reports of the same vote: `get_vote_history` and `get_statistics`"""
+        bad = []
+        key = lambda x: (x.reached, x.decision, x.permit_votes, x.block_votes, x.abstain_votes, x.total_votes, len(x.votes))
+        try:
+            h = q.get_vote_history(1)
+            if not h or key(h[-1]) != key(r):
+                bad.append("history")
+            st1 = self._stats(q)
+            if st0 is None or st1 is None:
+                bad.append("statistics")
+            else:
+                if st1["total_votes"] - st0["total_votes"] != len(r.votes):
+                    bad.append("statistics.total_votes")
+                d = (st1["quorums_reached"] - st0["quorums_reached"], st1["quorums_failed"] - st0["quorums_failed"])
+                if d != ((1, 0) if r.reached else (0, 1)):
+                    bad.append("statistics.quorums")
+                if st1["n_agents"] != len(r.votes):
+                    bad.append("statistics.n_agents")
+        except Exception as e:  # noqa
+            bad.append(f"raise:{type(e).__name__}")
+        return bad
 
     def run_impl(self, case):
         obs = []
         ballots = {}                                    # line index -> the electorate the real object held at that vote
         visible = {}                                    # line index -> (strategy, custom_threshold, min_voters, emergency?)
+        side = {}                                       # line index -> other public reports that contradict the result
         states = self._states(case["lines"])
-        q = None
-        pending = ("majority", None, 1, False)          # configuration to construct with
         VT = self.m.VoteType
 
+        def fresh_obj(pending=("majority", None, 1, False)):
+            return {"q": None, "pending": pending, "ctor": {}, "rec": []}
+        objs, cur = {}, 0
+        o = fresh_obj()                                 # the current quorum object (constructed on first use)
+
         def ensure(n=0):
-            nonlocal q
-            if q is None:
-                q = self._make(pending[0], pending[1], pending[2], n, pending[3])
-            return q
+            if o["q"] is None:
+                pd = o["pending"]
+                o["q"] = self._make(pd[0], pd[1], pd[2], n, pd[3], **o["ctor"])
+            return o["q"]
 
         for li, line in enumerate(case["lines"]):
             t = line.split()
+            q = o["q"]
             try:
                 if t[0] == "realvote" and len(t) == 4 and t[1] in PROMPTS:
                     # an un-stubbed colony: real BioAgent voters (core/agent.py) sharing one ATP budget
                     n, atp = int(t[3]), int(t[2])
                     rq = self._fresh(states[li], n, atp)
                     prompt = PROMPTS[t[1]][(n + atp) % len(PROMPTS[t[1]])]
-                    obs.append(self._observe(rq, n, prompt)[0])
+                    obs.append(self._observe(rq, n, prompt, style=li)[0])
+                elif t[0] == "obj" and len(t) == 2 and t[1].isdigit():
+                    objs[cur] = o
+                    cur = int(t[1])
+                    o = objs.get(cur) or fresh_obj()
+                    obs.append("ok")
                 elif t[0] == "cfg" and len(t) == 4 and (t[1] in STRATS or t[1] == "emergency"):
                     cu = None if t[2] == "none" else float(Fraction(t[2]))
-                    pending = (("threshold", cu, 1, True) if t[1] == "emergency" else (t[1], cu, int(t[3]), False))
-                    q = None
+                    o = fresh_obj(("threshold", cu, 1, True) if t[1] == "emergency" else (t[1], cu, int(t[3]), False))
+                    obs.append("ok")
+                elif t[0] == "cb" and len(t) == 3 and t[1] in self.CB_KEYS and t[2] in ("none", "ok", "raise"):
+                    f = None if t[2] == "none" else self._recorder(o["rec"], t[1], t[2])
+                    if q is None:                        # not constructed yet: a constructor argument
+                        o["ctor"][self.CB_KEYS[t[1]]] = f
+                    else:                                # afterwards: the public attribute
+                        setattr(q, self.CB_KEYS[t[1]], f)
+                    obs.append("ok")
+                elif t[0] == "attr" and len(t) == 3 and t[1] == "tracking":
+                    flag = t[2] in ("1", "true", "True")
+                    if q is None:
+                        o["ctor"]["enable_reliability_tracking"] = flag
+                    else:
+                        q.enable_reliability_tracking = flag
                     obs.append("ok")
                 elif t[0] == "colony" and len(t) == 2:
                     if q is not None:
@@ -655,7 +821,7 @@ class C06(Prop):
                     name, w = unhexs(t[1]), float(Fraction(t[2]))
                     with contextlib.redirect_stdout(io.StringIO()):
                         ensure().add_agent(name, weight=w)
-                    obs.append(self._colony_obs(q))
+                    obs.append(self._colony_obs(o["q"]))
                 elif t[0] == "addsame" and len(t) == 3:
                     i, w = int(t[1]), float(Fraction(t[2]))
                     if q is None or not (0 <= i < len(q.colony)):
@@ -668,10 +834,10 @@ class C06(Prop):
                 elif t[0] == "remove" and len(t) == 2:
                     with contextlib.redirect_stdout(io.StringIO()):
                         ok = ensure().remove_agent(unhexs(t[1]))
-                    obs.append(show_bool(ok) + " " + self._colony_obs(q))
+                    obs.append(show_bool(ok) + " " + self._colony_obs(o["q"]))
                 elif t[0] == "setw" and len(t) == 3:
                     ok = ensure().set_agent_weight(unhexs(t[1]), float(Fraction(t[2])))
-                    obs.append(show_bool(ok) + " " + self._colony_obs(q))
+                    obs.append(show_bool(ok) + " " + self._colony_obs(o["q"]))
                 elif t[0] == "attr" and len(t) == 3 and t[1] in ("strategy", "threshold", "minvoters"):
                     # direct assignment of a public attribute the vote reads (no setter)
                     if t[1] == "strategy":
@@ -690,7 +856,7 @@ class C06(Prop):
                 elif t[0] == "linsert" and len(t) == 4:
                     i, name, w = int(t[1]), unhexs(t[2]), float(Fraction(t[3]))
                     ensure().colony.insert(i, self.m.AgentProfile(agent=Stub(name), weight=w))
-                    obs.append(self._colony_obs(q))
+                    obs.append(self._colony_obs(o["q"]))
                 elif t[0] == "pset" and len(t) == 4:
                     if q is None or not (0 <= int(t[1]) < len(q.colony)):
                         obs.append("bad-op")
@@ -702,26 +868,29 @@ class C06(Prop):
                         obs.append(self._colony_obs(q))
                 elif t[0] == "relupd" and len(t) == 3:
                     ensure().update_reliability(unhexs(t[1]), t[2] in ("1", "true", "True"))
-                    obs.append(self._colony_obs(q))
+                    obs.append(self._colony_obs(o["q"]))
                 elif t[0] == "relall" and len(t) == 2 and t[1] in ("permit", "block", "abstain", "defer"):
                     ensure().update_all_reliability(VT(t[1]))
-                    obs.append(self._colony_obs(q))
+                    obs.append(self._colony_obs(o["q"]))
                 elif t[0] == "vote":
                     ballot = [parse_voter(x) for x in t[1:]]
-                    ensure(len(ballot))
+                    q = ensure(len(ballot))
                     with contextlib.redirect_stdout(io.StringIO()):
                         self._resize(q, len(ballot))
-                    ballots[li] = self._install(q, ballot)
+                    ballots[li] = self._install(q, ballot, salt=li)
                     # the configuration visible through the public attributes at this moment: what the oracle judges by
                     ct = q.custom_threshold
                     visible[li] = (q.strategy.value, None if ct is None else Fraction(float(ct)).limit_denominator(10 ** 6),
                                    int(q.min_voters), isinstance(q, self.m.EmergencyQuorum) and "changed")
-                    obs.append(self._observe(q, len(ballot), skip_nondyadic=True)[0])
+                    sd = []
+                    obs.append(self._observe(q, len(ballot), skip_nondyadic=True, style=li, rec=o["rec"], side=sd)[0])
+                    if sd:
+                        side[li] = sd
                 else:
                     obs.append("bad-op")
             except (ValueError, ZeroDivisionError, KeyError):
                 obs.append("bad-op")
-        return obs, {"ballots": ballots, "visible": visible}
+        return obs, {"ballots": ballots, "visible": visible, "side": side}
 
     # --- oracle: the property text on what the real code did --------------------------------------------------
     def _fresh(self, st, n, budget=1000):
@@ -749,13 +918,31 @@ class C06(Prop):
 
     def oracle(self, case, obs, extra):
         out = []
+        installed = self._callbacks(case["lines"])
         for idx, (line, o, st) in enumerate(zip(case["lines"], obs, self._states(case["lines"]))):
             t = line.split()
+            # which callback was handed the result (a raising one: the result it was handed is judged like a returned one)
+            fired = None
+            if o.startswith("raise:CallbackError ") and o.count(" ") >= 2:
+                _, fired, o = o.split(" ", 2)
+            elif " cb=" in o:
+                o, fired = o.rsplit(" cb=", 1)
             if t[0] == "realvote" and o != "bad-op" and not o.startswith("raise:"):
                 out.extend(self._oracle_real(t, o, st, idx))
                 continue
             if t[0] != "vote" or o == "bad-op":
                 continue
+            if fired is not None and not o.startswith(("raise:", "skip:")):
+                # "reported as reached": `on_quorum_reached` is handed the result exactly when it says reached (and is
+                # the returned object), `on_quorum_failed` exactly when it does not
+                want = "reached" if o.split(" ")[0] == "1" else "failed"
+                expect = want if installed[idx][want] != "none" else "none"
+                if fired != expect:
+                    out.append(Violation("callback_reports_the_decision", f"cb={expect}", f"cb={fired}", idx))
+            sd = (extra or {}).get("side", {}).get(idx)
+            if sd:
+                out.append(Violation("history_and_statistics_report_the_vote",
+                                     "get_vote_history / get_statistics agree with the result of the vote", ",".join(sd), idx))
             ballot = (extra or {}).get("ballots", {}).get(idx)      # the electorate the real object held (resolves `_`)
             if ballot is None:
                 ballot = parse_ballot(line)
